@@ -67,6 +67,11 @@ func runRule(c *Ctx, id string) (res RuleResult) {
 	have := map[string]bool{}
 	for _, in := range run.out {
 		have[baseLabel(in.Construct)] = true
+		// an obligation that moved to the call site of a helper ("(*levelManager).deleteTables→remove(table)") is still
+		// of the kind it had in the helper's place
+		if i := strings.LastIndex(in.Construct, "→"); i >= 0 {
+			have[baseLabel(in.Construct[i+len("→"):])] = true
+		}
 	}
 	for _, want := range expectedLabels[id] {
 		if !have[want] {
